@@ -1,5 +1,7 @@
 import KdVerif.Proofs.Pairing
 import KdVerif.Proofs.Projection
+import KdVerif.Proofs.PyIR
+import KdVerif.Gen.PyIR
 /-
   C04 — START/END pairing delivers exactly each operation's per-thread event window.
 
@@ -277,5 +279,114 @@ example : emitAt dom8 (demo.take 8) (ev 8 1 12 2) =
 example : traces (fun eid => eid == 4) dom8 demo =
     .ok [[ev 4 2 4 0], [ev 0 1 4 1, ev 1 1 12 1, ev 5 1 4 2], [ev 7 1 4 1, ev 8 1 12 2, ev 9 1 4 2]] := by
   rfl
+
+/-! ### translation tie: the SOURCE TEXT of the five methods, run by an interpreter of Python, is the model
+
+  `tools/gen_pyir.py` translates `TracesParser.feed`, `parse_event_list`, `_feed_start_event`, `_feed_end_event`,
+  `_feed_single_event` and the dict `self.qualifiers_actions` (pure `ast`, on every run) into the deep embedding of
+  `Model/PyIR` (`Gen/PyIR.lean`).  `PyIR.feed prog cfg w e` runs `feed(e)` by the big-step interpreter `PyIR.exec`
+  on the heap `w` (the two window tables as insertion-ordered dicts of dicts of lists, plus the log `w.calls` of the
+  arguments `parse_event_list` was called with); `cfg` = the read-only tables (`trace_codes`, `trace_handlers`,
+  `self.handlers`), arbitrary.  `PyIR.abs w` is the model state: key `(dom, tid, eid)` present iff
+  `tid in table_dom and eid in table_dom[tid]`.  `PyIR.WF w`: no duplicate keys (the tables are dicts).
+  `PyIR.domOf cfg eid` = "`eid in trace_codes and trace_codes[eid] in trace_handlers`", `PyIR.dec cfg eid` =
+  "`eid in trace_codes and trace_codes[eid] in self.handlers`" — the parameters `domOf` / `dec` of the theorems above. -/
+
+/-- The program generated from the source text is, node for node, the program the refinement below was proved
+    for (`Spec/PyIRExpected`, a hand-written copy quoting the Python), and the translator met nothing it could
+    not express.  Any statement, condition, table entry or evaluation order that changes makes this false. -/
+theorem source_is_expected_ir : Gen.PyIR.prog = PyIR.Expected.prog ∧ Gen.PyIR.notes = [] := by decide
+
+/-- ONE `feed(e)`, for EVERY well-formed heap `w`, every event `e` with a two-bit qualifier (C01.qualifier_range) and
+    every `cfg`: the interpreter does not raise; the heap it leaves is well-formed and abstracts to the model's next
+    state; `parse_event_list` was called exactly with the list the model emits (or not at all); the value returned is
+    `None` or the result of the handler `gate` lets through (`PyIR.retOf`). -/
+theorem expected_ir_refines_model (cfg : PyIR.Cfg) (w : PyIR.World) (e : Kevent) (hwf : PyIR.WF w)
+    (hq : e.qual < 4) :
+    ∃ w', PyIR.feed PyIR.Expected.prog cfg w e =
+        .ok (PyIR.retOf cfg (step (PyIR.domOf cfg) (PyIR.abs w) e).2, w') ∧
+      PyIR.WF w' ∧ PyIR.abs w' = (step (PyIR.domOf cfg) (PyIR.abs w) e).1 ∧
+      w'.calls = w.calls ++ (step (PyIR.domOf cfg) (PyIR.abs w) e).2.toList :=
+  PyIR.feed_refines_step cfg w e hwf hq
+
+/-- The same for the program GENERATED from the source. -/
+theorem source_ir_refines_model (cfg : PyIR.Cfg) (w : PyIR.World) (e : Kevent) (hwf : PyIR.WF w)
+    (hq : e.qual < 4) :
+    ∃ w', PyIR.feed Gen.PyIR.prog cfg w e =
+        .ok (PyIR.retOf cfg (step (PyIR.domOf cfg) (PyIR.abs w) e).2, w') ∧
+      PyIR.WF w' ∧ PyIR.abs w' = (step (PyIR.domOf cfg) (PyIR.abs w) e).1 ∧
+      w'.calls = w.calls ++ (step (PyIR.domOf cfg) (PyIR.abs w) e).2.toList := by
+  rw [source_is_expected_ir.1]; exact PyIR.feed_refines_step cfg w e hwf hq
+
+/-- ALL histories: feeding `h` to a fresh parser (both tables empty), the generated program returns, event by
+    event, what the model's per-event outputs give through the gate; the lists handed to `parse_event_list`
+    are exactly `Pairing.run`, in order; the tables at the end abstract to `Pairing.stateAfter`.  So every theorem
+    of this file about `run` / `outputs` / `stateAfter` / `emitAt` is a theorem about the source text. -/
+theorem run_ir_eq_run_model (cfg : PyIR.Cfg) (h : List Kevent) (hq : ∀ e ∈ h, e.qual < 4) :
+    ∃ w', PyIR.runFrom Gen.PyIR.prog cfg PyIR.World.empty h =
+        .ok ((outputs (PyIR.domOf cfg) PState.empty h).map (PyIR.retOf cfg), w') ∧
+      w'.calls = run (PyIR.domOf cfg) h ∧ PyIR.abs w' = stateAfter (PyIR.domOf cfg) h ∧ PyIR.WF w' := by
+  obtain ⟨w', h1, hwf, ha, hc⟩ := PyIR.runFrom_refines cfg h PyIR.World.empty PyIR.wf_empty hq
+  rw [PyIR.abs_empty] at h1 ha hc
+  rw [source_is_expected_ir.1]
+  exact ⟨w', h1, by simpa [PyIR.World.empty, run] using hc, ha, hwf⟩
+
+/-- `parse_event_list(l)` of the generated program is `gate`: `events[0]` of `[]` raises `IndexError`; otherwise
+    the call is logged, and a handler is called — with exactly `l`, under the name `trace_codes[l[0].eventid]` —
+    iff the first event's code is decodable; else `None`.  The heap is not touched. -/
+theorem parse_event_list_ir_eq_gate (cfg : PyIR.Cfg) (l : List Kevent) (w : PyIR.World) :
+    PyIR.invoke Gen.PyIR.prog cfg 1 .parseEventList [.list l] w =
+      match gate (PyIR.dec cfg) l with
+      | .error x => .error x
+      | .ok none => .ok (.none, { w with calls := w.calls ++ [l] })
+      | .ok (some v) => .ok (.result (PyIR.handlerName cfg v) v, { w with calls := w.calls ++ [l] }) := by
+  rw [source_is_expected_ir.1, PyIR.invoke_pel, PyIR.hPel_eq_gate]
+  cases gate (PyIR.dec cfg) l with
+  | error x => rfl
+  | ok r => cases r <;> rfl
+
+/-- `feed` returns a handler's result exactly when the model emits a window whose first code is decodable. -/
+theorem ir_return_iff (cfg : PyIR.Cfg) (o : Option (List Kevent)) :
+    PyIR.retOf cfg o ≠ .none ↔ ∃ w v, o = some w ∧ gate (PyIR.dec cfg) w = .ok (some v) := by
+  cases o with
+  | none => simp [PyIR.retOf]
+  | some w =>
+    simp only [PyIR.retOf, Option.some.injEq]
+    cases hg : gate (PyIR.dec cfg) w with
+    | error x => simp [hg]
+    | ok r => cases r <;> simp [hg]
+
+/-! non-vacuity of the translation tie: thread 1: START a(4), START b(12), NONE c(8, trace domain), END a,
+    stray END d(16, unknown code), END b.  Codes 4, 8, 12 are known (names 1, 2, 3), name 2 is a trace-domain name,
+    only name 1 has a handler. -/
+
+def cfgDemo : PyIR.Cfg :=
+  { codes := fun eid => if eid = 4 then some 1 else if eid = 8 then some 2 else if eid = 12 then some 3 else none
+    isTraceName := fun n => n == 2
+    hasHandler := fun n => n == 1 }
+
+def demoIR : List Kevent := [ev 0 1 4 1, ev 1 1 12 1, ev 2 1 8 0, ev 3 1 4 2, ev 4 1 16 2, ev 5 1 12 2]
+
+/-- the generated program, run by the interpreter: returned values and the `parse_event_list` log -/
+example : (PyIR.runFrom Gen.PyIR.prog cfgDemo PyIR.World.empty demoIR).toOption.map (fun r => (r.1, r.2.calls)) =
+    some ([.none, .none, .none, .result 1 [ev 0 1 4 1, ev 1 1 12 1, ev 3 1 4 2], .none, .none],
+          [[ev 2 1 8 0], [ev 0 1 4 1, ev 1 1 12 1, ev 3 1 4 2], [ev 1 1 12 1, ev 3 1 4 2, ev 5 1 12 2]]) := by
+  decide
+
+/-- … equals the model's answer on the same history -/
+example : (PyIR.runFrom Gen.PyIR.prog cfgDemo PyIR.World.empty demoIR).toOption.map (fun r => (r.1, r.2.calls)) =
+    some ((outputs (PyIR.domOf cfgDemo) PState.empty demoIR).map (PyIR.retOf cfgDemo),
+          run (PyIR.domOf cfgDemo) demoIR) := by
+  decide
+
+/-- the heap in between: after the first three events thread 1 has `{4: [0,1], 12: [1]}` in `on_going_events`
+    (insertion order) and nothing in `on_going_traces` -/
+example : (PyIR.runFrom Gen.PyIR.prog cfgDemo PyIR.World.empty (demoIR.take 3)).toOption.map (·.2.events) =
+      some [(1, [(4, [ev 0 1 4 1, ev 1 1 12 1]), (12, [ev 1 1 12 1])])] ∧
+    (PyIR.runFrom Gen.PyIR.prog cfgDemo PyIR.World.empty (demoIR.take 3)).toOption.map (·.2.traces) = some [] := by
+  decide
+
+example : PyIR.invoke Gen.PyIR.prog cfgDemo 1 .parseEventList [.list []] PyIR.World.empty = .error .indexError := by
+  rw [parse_event_list_ir_eq_gate]; rfl
 
 end KdVerif.C04
